@@ -64,7 +64,7 @@ CHECKS = {
     "C05": dict(
         text=("Theorems (Props/C05.lean), about negate() as repaired by the fix: commit for defect D1: negate_compl — for every "
               "tree and in-bounds assignment the negated model evaluates to 1 - original (all four branches of the inward push, "
-              "with the constructor's re-sorting); negate_safe — solver-safe + boolean leaves stays solver-safe; negate_keeps_id. "
+              "with the constructor's re-sorting); negate_safe — solver-safe + boolean leaves stays solver-safe; negate_keeps_id; negate_negate_eval / negate_negate_id — the negation negated once more evaluates like the model again and still carries the explicit id (the negation is a model like any other). "
               "Tie: negate() output compared structurally (ids incl. SHA-256 generated ones, bounds, sign, value, child order, "
               "generated flag); oracle: real evaluate on original and negation over all/sampled in-bounds assignments."),
         note="Defect D1 was found by this check on the pinned tree and repaired (known_findings.json, corpus/C05).",
@@ -185,7 +185,7 @@ CHECKS = {
               "the level-sum difference at the highest level where they differ; equal_of_no_difference; shadow_objective_dominates / "
               "configurator_objective_lex — for EVERY priority input the objective in key form (C13's shadowSpec over [default "
               "priorities, user priorities]; key = (row, magnitude)) passes that certificate, hence ranks any two 0/1 "
-              "configurations by user priority magnitude, then the non-default branch, then every other column (level_order); "
+              "configurations by user priority magnitude, then the non-default branch, then every other column (level_order); lex_by_level_sums / totAbove_zero_of_levels — the ranking stated in level sums only (configurations whose level sums agree at every level above l are ranked by their sums at l); optimal_lex_maximal / configurator_optimal_lex / top_priority_followed — the statement's 'hence': a configuration optimal against a feasible y is at least as good as y at the highest level where they differ, so the top-priority item is taken (avoided) whenever y shows it can be, with user levels tied no more non-default helpers are on, with those tied no more columns are selected; "
               "evalPt_mkCcAny / evalPt_mkCcXor — the default restructuring never changes what a rule means: cc.Any is true iff at "
               "least one, cc.Xor iff exactly one alternative is true, whatever the default (defaults enter the objective only, not "
               "the feasible set); ccAny_truth / ccXor_truth / stingy_truth — the same over constructor expressions (C04's build_truth "
@@ -239,14 +239,14 @@ CHECKS = {
               "ccAny_roundtrip_gen; build_untagged: no constructor tags what it returns; e.g. a defaulted choice below an Imply "
               "below the configurator, a choice below a choice); items_configurator_exact — a StingyConfigurator over defaulted cc.Xor / cc.Any "
               "rules over items (ids pairwise distinct) is read back as the very same model, hence with the same default priorities, "
-              "polyhedron, columns and JSON (ccAny_items_exact, ccXor_items_exact, stingy_exact); defaults_kept — whenever the configurator's class map "
+              "polyhedron, columns and JSON (ccAny_items_exact, ccXor_items_exact, stingy_exact); everyday_configurator_exact — the same for configurators whose rules are defaulted choices over items, plain Any / All / AtMost / AtLeast rules over items (plainItemRule_rtx; for a generated id the sign passed the way to_json writes it — otherwise F16f) and conditionals Imply(item, item-or-such-a-rule) (imply_item_rtx: the held negated condition All(item).negate() is written as AtLeast(1,[item]) and negated again on reading — the same node, generated id included); defaults_kept — whenever the configurator's class map "
               "reads back what a cc.Any / cc.Xor node wrote, the model it builds carries the same default; evaluation and "
               "default priorities of the configurator classes are tied by correspondence + oracle only; "
               "id_written_iff — for every class an explicitly given id is written and a generated one is not. Tie: to_json "
               "(through json.dumps/loads) and from_json compared with the model for every class incl. configurators; oracle: "
               "leaves and bounds, evaluation on assignments, explicit ids kept, no id emitted for generated ones, defaults and "
               "default priorities on named ids."),
-        note="PARTIAL at the theorem level: for configurators with rules other than defaulted choices over items, default priorities and the polyhedron after the round trip are covered by the correspondence and the oracle, not by a theorem; the theorems keep the hypotheses DistinctRT (All / StingyConfigurator, fails exactly on F16f) and two inequalities of generated ids (Imply / XNor). Findings F16a-F16e were found by this check and repaired (five fix: commits). KNOWN FINDING F16g (session 5, not repaired): a defaulted cc.Xor written through its negation (Imply condition, Not) has the generated id of its rebuilt 'at least one' half emitted by to_json. KNOWN FINDING F16f (not repaired, known_findings.json): siblings that differ only in the sign argument as passed get different generated ids but equal JSON, collapse after the round trip and change the value of an enclosing All — found while extending the theorem to All; the check prints KNOWN-FINDING for it and still reports every other round-trip failure.",
+        note="PARTIAL at the theorem level: for configurators with rules other than defaulted choices, plain rules and item-conditioned implications over items (everyday_configurator_exact), default priorities and the polyhedron after the round trip are covered by the correspondence and the oracle, not by a theorem; the theorems keep the hypotheses DistinctRT (All / StingyConfigurator, fails exactly on F16f) and two inequalities of generated ids (Imply / XNor). Findings F16a-F16e were found by this check and repaired (five fix: commits). KNOWN FINDING F16g (session 5, not repaired): a defaulted cc.Xor written through its negation (Imply condition, Not) has the generated id of its rebuilt 'at least one' half emitted by to_json. KNOWN FINDING F16f (not repaired, known_findings.json): siblings that differ only in the sign argument as passed get different generated ids but equal JSON, collapse after the round trip and change the value of an enclosing All — found while extending the theorem to All; the check prints KNOWN-FINDING for it and still reports every other round-trip failure.",
         technique="Lean 4 theorem (mutual induction over the fragment) + differential correspondence (both directions) + round-trip oracle",
         ref="§4 C16"),
     "C17": dict(
